@@ -263,6 +263,22 @@ class FuncView:
                     atoms(n.ast.test, lab == "T")
         return out
 
+    def core_facts(self, target):
+        """facts(target) with one spelling per ordering comparison (constant operand on the right), for rules that compare
+        the *set* of conditions on a path with an expected set"""
+        out = set()
+        for f in self.facts(target):
+            try:
+                e = ast.parse(f, mode="eval").body
+            except Exception:
+                out.add(f)
+                continue
+            if isinstance(e, ast.Compare) and len(e.ops) == 1 and type(e.ops[0]) in _SWAP and isinstance(e.left, ast.Constant) \
+                    and not isinstance(e.comparators[0], ast.Constant):
+                continue
+            out.add(f)
+        return out
+
     def symfacts(self, target):
         """facts(target) plus each fact with its local names replaced by their reaching definitions at `target`
         (`sel` -> `self.insels.fetch(tag)`), so a rule can name the condition by value instead of by variable"""
